@@ -20,7 +20,7 @@ One `HeapObserver` per replay; use `post` as the post-hook of mut_ex.replay; the
 """
 from __future__ import annotations
 
-MODELLED_PREFIXES = ("(OAdd ", "(ORemove ", "(ORemoveChildren ", "(OClear ", "(OMove ", "(OMeta ", "(ONewTree ", "(ODel ", "(OShort ")
+MODELLED_PREFIXES = ("(OAdd ", "(ORemove ", "(ORemoveChildren ", "(OClear ", "(OMove ", "(OMeta ", "(ONewTree ", "(ODel ", "(OShort ", "(OSetData ", "(ORename ")
 
 
 def modelled(coq_op: str) -> bool:
